@@ -24,7 +24,7 @@ META = {
         "e, J, Omega are taken from the edges themselves (C01/C02 own them); numpy dense solve/cond trusted",
         "tolerance 1e-9 x (1 + |dx| + translation scale) x max(1, cond/1e3)",
     ],
-    "required_classes": ["shared_pose_object", "weak_information", "history", "parallel_edges", "edge_high_index_first", "mixed_dimensions", "two_or_more_fixed", "custom_unary", "custom_ternary", "ffp_true", "ffp_false", "ids_special", "edge_order_permuted", "isolated_fixed_vertex"],
+    "required_classes": ["far_apart", "shared_pose_object", "weak_information", "history", "parallel_edges", "edge_high_index_first", "mixed_dimensions", "two_or_more_fixed", "custom_unary", "custom_ternary", "ffp_true", "ffp_false", "ids_special", "edge_order_permuted", "isolated_fixed_vertex"],
     "bounds": {"quick": "n=2: m<=3; n=3: m<=2, vertex orders {identity, reversed, rotated}", "thorough": "n=2: m<=4; n=3: m<=3, all 6 vertex orders"},
 }
 
@@ -101,6 +101,10 @@ def run_chunk(chunk, tier, seed):
                     _do(acc, {"types": types, "seed": seed, "edges": ms, "fixed": fixed, "ffp": False, "vorder": vo, "eorder": None, "ids": ids[:n]})
                     # fix_first_pose must mean the first LISTED vertex whatever the ids are (no vertex pre-marked)
                     _do(acc, {"types": types, "seed": seed, "edges": ms, "fixed": [False] * n, "ffp": True, "vorder": vo, "eorder": None, "ids": ids[:n]})
+            # far apart: exact steps of 1e7 and more (no clipping / step limiting)
+            for fx in itertools.product((False, True), repeat=n):
+                if any(fx):
+                    _do(acc, {"types": types, "seed": seed, "edges": ms, "fixed": list(fx), "ffp": False, "vorder": list(range(n)), "eorder": None, "ids": None, "far": True})
             # weak information: the Gauss-Newton step does not depend on the scale of the information matrices
             for fx in itertools.product((False, True), repeat=n):
                 if any(fx):
@@ -139,6 +143,13 @@ def signature(case, msgs):
 def spec_of(case):
     types = case["types"]
     spec = F.make_spec(types, case["seed"], case["edges"], case["fixed"], case["vorder"], case["eorder"], case["ids"])
+    if case.get("far"):
+        import copy as _c2
+
+        spec = _c2.deepcopy(spec)
+        for k, v in enumerate(spec["vertices"]):
+            d = G.DIM[v["kind"]]
+            v["pose"] = [x * 1e7 * (k + 1) + 3e6 for x in v["pose"][:d]] + v["pose"][d:]
     if case.get("oscale"):
         import copy as _c
 
@@ -173,6 +184,8 @@ def classes_of(case, spec, fixed_eff):
         cl.append("edge_order_permuted")
     if case.get("oscale"):
         cl.append("weak_information")
+    if case.get("far"):
+        cl.append("far_apart")
     touched = {i for e in spec["edges"] for i in e["ids"]}
     if any(f and v["id"] not in touched for f, v in zip(fixed_eff, spec["vertices"])):
         cl.append("isolated_fixed_vertex")
